@@ -7,7 +7,8 @@ over a symbolic block-size vector (s0, s1, s2) and symbolic index-array descript
 R1  permutation algebra    invert_permuted_block_diag_matrix: with G(p) = I[p, :] (ArraySlicer(domain_indices=p) @ M = M[p],
                            range_indices / .T give G(p)^-1 = G(p)^T) the matrix handed to the block inverter is the word
                            G(r) A G(c)^-1 and the returned word freely reduces to A^-1; the sizes handed on are the sizes parameter;
-                           producer roles (rows/cols/sizes of generate_permutation_to_block_diag_matrix) meet the consumer roles position by position.
+                           producer roles (rows/cols/sizes of generate_permutation_to_block_diag_matrix) meet the consumer roles position by position;
+                           no statement overwrites the stored entries (.data) of a matrix of the chain (storage clean-up such as eliminate_zeros is allowed).
 R2  block offsets          for every kernel (python, numba), storage format (csr, csc) and block ib: the output segment is
                            [sum_{j<ib} s_j^2, sum_{j<=ib} s_j^2), the index shift is sum_{j<ib} s_j, the row-major factor and both
                            dimensions of the dense block are s_ib, all blocks are visited; block_diag_index labels the same
@@ -19,7 +20,8 @@ R4  lock-step windows      row indices, column indices and data of a block are c
                            [nnz(start_ib), nnz(start_ib+1)); lines expanded from the index pointer cover the lines of the same block.
 R5  dispatch               both kernels and block_diag_matrix receive the same (zero-filtered) size vector and the matrix argument;
                            block_diag_matrix hands its size vector to block_diag_index and to the row-length computation.
-R6  bipartite encoding     generate_permutation_to_block_diag_matrix: column nodes are encoded with the offset they are decoded with,
+R6  bipartite encoding     generate_permutation_to_block_diag_matrix: the (row, column) pattern comes from a format-agnostic reader (sps.find,
+                           nonzero, coo) or from compressed storage of an ESTABLISHED format; column nodes are encoded with the offset they are decoded with,
                            the row/column predicates are complementary at that offset; per component the row list, the column list and
                            the block size are appended in the same iteration from the same component; all-zero rows extend all three lists;
                            the single-component shortcut returns identity permutations and one block of full size.
